@@ -258,6 +258,20 @@ class Module(object):
             self._refid[a] = self._const_ptr_target(tgt)
             a = L.LLVMGetNextGlobalAlias(a)
         self._frefs = dict((F.name, f) for f, F in frefs)
+        # static constructors (llvm.global_ctors): names in priority order
+        self.global_ctors = []
+        gc = self.globals.get('llvm.global_ctors')
+        if gc is not None and gc.init_ref is not None:
+            try:
+                arr = self.const(gc.init_ref)
+                ent = []
+                for e in arr:
+                    prio, fn = e[0], e[1]
+                    if isinstance(fn, Ptr) and fn.obj in self.obj_by_id:
+                        ent.append((prio, self.obj_by_id[fn.obj].name))
+                self.global_ctors = [n for _, n in sorted(ent, key=lambda x: x[0])]
+            except Unsupported:
+                self.global_ctors = []
 
     def _const_ptr_target(self, v):
         if v in self._refid:
@@ -611,7 +625,8 @@ class Module(object):
             if ck == VK_FUNCTION:
                 nm = _name(callee)
                 if nm.startswith('llvm.dbg.') or nm.startswith('llvm.lifetime.') or \
-                        nm.startswith('llvm.experimental.noalias') or nm == 'llvm.assume':
+                        nm.startswith('llvm.experimental.noalias') or nm == 'llvm.assume' or \
+                        nm.startswith('llvm.invariant.'):
                     return None
                 return (I_CALL, dst, nm, tuple(S(O(k)) for k in range(nargs)), line)
             if ck == VK_INLINEASM:
